@@ -178,6 +178,8 @@ def run(ctx):
             for cl in ("uniform", "monotone", "complete"):
                 if not c[cl]:
                     devs.setdefault((cl, F), []).append(ns)
+    for t in traces[:3]:
+        ctx.sample({"ns": t["ns"], "factor": t["f"], "segments_in_file": t["file"][:4], "windows": len(t["wins"])})
     # ---- code -> spec ---------------------------------------------------------------------------
     verdicts = tracecheck.validate(ctx, *TRACE, traces, label="lfp", nstates=nstates, jvms=4, workers=2)
     seen = {}
